@@ -25,6 +25,22 @@ if not os.path.abspath(sysloss.__file__).startswith(os.path.join(os.path.abspath
     sys.exit(2)
 
 NPROC = int(os.environ.get("VERIF_JOBS", "0")) or min(16, os.cpu_count() or 1)
+RUNID = "%d" % os.getpid()  # inherited by forked workers: scratch files of concurrent runs never collide
+
+
+def workdir(tag=""):
+    d = os.path.join(OUT, ".work", "run-%s" % RUNID, "%s%d" % (tag, os.getpid()))
+    os.makedirs(d, exist_ok=True)
+    return d
+
+
+def cleanup_workdir():
+    import shutil
+    shutil.rmtree(os.path.join(OUT, ".work", "run-%s" % RUNID), ignore_errors=True)
+    try:
+        os.rmdir(os.path.join(OUT, ".work"))
+    except OSError:
+        pass
 
 
 def seed():
@@ -95,8 +111,15 @@ _GLOBALS0D = {k: _copy.deepcopy(getattr(_D, k)) for k in ("_DEF_CONF", "_DEF_GRA
 def globals_intact():
     """module-level defaults of the library are shared by every component / diagram: no call may change them."""
     bad = [k for k, v in _GLOBALS0.items() if getattr(_C, k) != v] + [k for k, v in _GLOBALS0D.items() if getattr(_D, k) != v]
-    for k, v in _GLOBALS0.items():
-        setattr(_C, k, _copy.deepcopy(v)) if k in bad else None
+    for mod, snap in ((_C, _GLOBALS0), (_D, _GLOBALS0D)):
+        for k, v in snap.items():
+            if k in bad:  # restore IN PLACE: other modules hold references to the same objects
+                cur = getattr(mod, k)
+                if isinstance(cur, dict):
+                    cur.clear()
+                    cur.update(_copy.deepcopy(v))
+                else:
+                    setattr(mod, k, _copy.deepcopy(v))
     return bad
 
 
@@ -196,6 +219,7 @@ class Run:
     def finish(self, *, level="model_checking", rule="", assumptions=(), states=None, transitions=None,
                traces=None, exhaustive=True, extra=None):
         wall = time.time() - self.t0
+        cleanup_workdir()
         findings = load_findings(self.prop)
         new, known = [], {}
         for sig, (cnt, (idx, case, detail, family)) in sorted(self.viol.items(), key=lambda kv: kv[1][1][0]):
@@ -206,6 +230,7 @@ class Run:
             else:
                 new.append((sig, cnt, case, detail, family))
         rc = 0
+        nondet = False
         for fid, (f, cnt) in sorted(known.items()):
             print("KNOWN-FINDING: property=%s %s [%s; %d occurrences in this run]" % (self.prop, f["what"], fid, cnt))
         os.makedirs(os.path.join(OUT, "replays"), exist_ok=True)
@@ -223,7 +248,10 @@ class Run:
             status = "reproduced"
             if self.replay_fn is not None and case is not None and nv < 8:
                 try:
-                    sigs = self.replay_fn(doc)
+                    sigs = list(self.replay_fn(doc))
+                    badg = globals_intact()
+                    if badg:
+                        sigs.append(("GLOBAL.library-defaults-mutated", ",".join(badg)))
                     if tuple(sig) not in set(tuple(s) for s in sigs):
                         status = "NOT-REPRODUCED"
                 except Exception as e:
@@ -232,8 +260,9 @@ class Run:
             with open(path, "w") as f:
                 json.dump(doc, f, indent=1, default=str)
             if status == "NOT-REPRODUCED":
+                # the failure depends on what ran before it in the same process (hidden state); reported, but not as a clean VIOLATION
                 print("HARNESS-NONDETERMINISM property=%s signature=%s replay=%s" % (self.prop, list(sig), path))
-                rc = max(rc, 2)
+                nondet = True
             else:
                 print("VIOLATION property=%s replay=%s" % (self.prop, path))
                 print("   signature=%s occurrences=%d detail=%s" % (list(sig), cnt, detail[:300]))
@@ -243,8 +272,9 @@ class Run:
             print("... and %d more violation signatures (see evidence file)" % (len(new) - MAXREP))
         for sig, detail, case in self.harness_errors[:5]:
             print("HARNESS-ERROR property=%s %s\n%s\ncase=%s" % (self.prop, sig, detail, json.dumps(case, default=str)[:500]))
-        if self.harness_errors:
-            rc = max(rc, 2)
+        # exit code: 1 as soon as a violation was confirmed; 2 (harness problem) only when nothing else was found
+        if rc == 0 and (self.harness_errors or nondet):
+            rc = 2
         cov = {
             "states": int(states if states is not None else self.cases),
             "transitions": int(transitions if transitions is not None else self.stats.get("transitions", self.cases)),
